@@ -7,6 +7,12 @@ Request:  `<pure|actor> <node> <rec>*`   (the mode only selects which implementa
                                                                  and who signed which (timestamp, payload)
       | `T:<w>/<l>:<payload>:<id>,<id>,…|-`                      trusted record with the endpoint ids of its addresses
 Records arrive in the given order at `update_transports` of a fresh `NodeInfo::new(node)`.
+Second form:  `<ni-pure|ni-actor> <node> <op>*`  — both entry points of one node's address-book entry
+  op = `+<rec>`   the record arrives through `insert_transport_info` / `update_transports`
+     | `=<rec>`   a complete `NodeInfo` with these transports is inserted (`insert_node_info` / `NodeInfo::verify`)
+     | `=-`       a complete `NodeInfo` without transports is inserted
+  answer per op: `+`: `<t|f|Esig|Emis>:<k|->`,  `=`: `<n|u|Esig|Emis>:<k|->` (n = newly inserted, u = overwritten);
+  `k` indexes the records of the request in order of appearance (`=-` carries none).
 Answer:   per record `<t|f|Esig|Emis>:<k|->`  — result of the step and the index (in the request) of the first
           record equal to the stored one afterwards (`-` = nothing stored).
 -/
@@ -41,9 +47,45 @@ def indexOf (rs : List Rec) (r : Rec) : String :=
   | some k => toString k
   | none => "?"
 
+def infoWord : InfoRes → String
+  | .ok true => "n"
+  | .ok false => "u"
+  | .err .invalidSignature => "Esig"
+  | .err .nodeIdMismatch => "Emis"
+
+def parseOp (t : String) : Option Op :=
+  match t.toList with
+  | '+' :: r => (parseRec (String.ofList r)).map Op.transport
+  | '=' :: r =>
+    if r = ['-'] then some (.nodeInfo none) else (parseRec (String.ofList r)).map (fun x => Op.nodeInfo (some x))
+  | _ => none
+
+def opRec : Op → List Rec
+  | .transport r => [r]
+  | .nodeInfo (some r) => [r]
+  | .nodeInfo none => []
+
+def handleOps (node : Nat) (ops : List Op) : String :=
+  let rs := ops.flatMap opRec
+  let stored (b : Book) : String := match b.reg with
+    | none => "-"
+    | some c => indexOf rs c
+  let (_, words) := ops.foldl (fun (st : Book × List String) (op : Op) =>
+    let (b, acc) := st
+    match op with
+    | .transport r => let (b', res) := arrive node b r; (b', (resWord res ++ ":" ++ stored b') :: acc)
+    | .nodeInfo t => let (b', res) := insertNodeInfo node b t; (b', (infoWord res ++ ":" ++ stored b') :: acc))
+    (Book.empty, [])
+  if words.isEmpty then "-" else " ".intercalate words.reverse
+
 def handle (line : String) : String :=
   match tokens line with
   | mode :: nodeS :: recs =>
+    if mode = "ni-pure" ∨ mode = "ni-actor" then
+      (match nodeS.toNat?, recs.mapM parseOp with
+       | some node, some ops => handleOps node ops
+       | _, _ => "bad-op")
+    else
     if mode ≠ "pure" ∧ mode ≠ "actor" then "bad-op" else
     match nodeS.toNat?, recs.mapM parseRec with
     | some node, some rs =>
